@@ -1,5 +1,30 @@
-(* C12 — raise sizes and amounts. Refusals that need no invariant. *)
-From PF Require Import Base ModelGame ProofsGameBasic ProofsChips.
+(* C12 — raise sizes and amounts: no amount argument can corrupt chips. *)
+From Coq Require Import Lia.
+From PF Require Import Base ModelGame ProofsGameBasic ProofsChips ProofsInv.
+
+(* no amount argument whatsoever — zero, negative, tiny or larger than the stack — can make a wager,
+   stack or pot negative or lift a stack above the player's bankroll: for every operation list
+   (amounts range over all of Z) every seat keeps bankroll = stack + wager + pot with all three >= 0 *)
+Theorem C12_amounts_cannot_corrupt_chips :
+  forall c deck g ops i,
+    cfg_ok c -> create c deck = (g, Ok) -> (i < nplayers (run g ops))%nat ->
+    let p := get_p (run g ops) i in
+    0 <= p_stack p /\ 0 <= p_wager p /\ 0 <= p_pot p /\ p_stack p <= p_bankroll p.
+Proof.
+  intros c deck g ops i Hc Hcr Hi p.
+  destruct (inv_chips _ (Inv_reachable c deck g ops Hc Hcr)) as [_ A _ _ _].
+  destruct (A i Hi) as (E1 & E2 & S & W & P). unfold p. repeat split; try assumption. lia.
+Qed.
+Print Assumptions C12_amounts_cannot_corrupt_chips.
+
+(* the minimum raise never goes negative, the wager to match never goes negative *)
+Theorem C12_raise_size_nonneg :
+  forall c deck g ops, cfg_ok c -> create c deck = (g, Ok) ->
+    0 <= st_prs (g_st (run g ops)) /\ 0 <= st_cw (g_st (run g ops)).
+Proof.
+  intros c deck g ops Hc Hcr. destruct (inv_chips _ (Inv_reachable c deck g ops Hc Hcr)) as [_ _ _ A B]. auto.
+Qed.
+Print Assumptions C12_raise_size_nonneg.
 
 Theorem C12_raise_below_wager_refused :
   forall g who x,
